@@ -9,6 +9,11 @@ def step (line : String) : String :=
   | "c08t" :: a => Drv.C08.opT a
   | "c08u" :: a => Drv.C08.opU a
   | "c09" :: a => Drv.C09.op a
+  | "c19d" :: a => Drv.C19.opD a
+  | "c19dup" :: a => Drv.C19.opDup a
+  | "c19sx" :: a => Drv.C19.opSX a
+  | "c19so" :: a => Drv.C19.opSO a
+  | "c19n" :: a => Drv.C19.opN a
   | "c05hy" :: a => Drv.C05.opHy a
   | "c05pd" :: a => Drv.C05.opPD a
   | "c06tz" :: a => Drv.C05.opTZ a
